@@ -216,8 +216,17 @@ def run_main(v, tier, seed, thorough, rng, states, trans, side, stall_out):
     rest = [b for b in close if not sent_in_window_then_deregistered(b) and any(a[0] in ("peer_close", "deregister") for a in b["hist"])]
     close = rng.sample(pri, min(len(pri), 300 if thorough else 16)) + rng.sample(rest, min(len(rest), 200 if thorough else 8))
     v.cov["peer_close_behaviours"] = {"with_a_call_written_in_the_closing_window_and_timed_out_after_deregistration": len(pri), "executed": len(close)}
+    # four callers, the first of which calls a node there is no connection to: the ones in which that call fails after a later call has been
+    # allocated (and sent), with two more calls starting afterwards and the waiting call answered at the end, are executed
+    ghost = behaviours("gen/Gen_Rpc_ghost4.cfg", "gen_ghost", simulate=f"num={3000 if thorough else 500}", seed=seed)
+    # (the configuration directs the order with the state constraint MC_Rpc!GhostDirected; kept: the waiting call gets its reply)
+    gsel = [b for b in ghost if ["wake", 2] in b["hist"]]
+    for b in gsel:
+        b["ghosts"] = [1]
+    v.cov["ghost_call_behaviours"] = {"generated": len(ghost), "with_the_waiting_call_answered": len(gsel)}
+    gsel = rng.sample(gsel, min(len(gsel), 60 if thorough else 8))
     late = [b for b in one if any(a[0] == "timeout" for a in b["hist"]) and any(a[0] == "route" for a in b["hist"])][: (200 if thorough else 25)]
-    scen = {json.dumps(b["hist"]) + b["conn"]: b for b in sample_one + must + late + stale + two + seq2 + other + close}
+    scen = {json.dumps(b["hist"]) + b["conn"]: b for b in sample_one + must + late + stale + two + seq2 + other + close + gsel}
     scen = list(scen.values())
     for i, s in enumerate(scen):
         s["id"] = i
